@@ -397,11 +397,12 @@ func (e *env) ingest(hist gen.History) bool {
 }
 
 func body(r *ev.Run) {
-	r.Rule("stores = seeded random histories (forks, stale branches, orphans, reorganisations) plus long chains (300 / 2100 quick, + 5000 thorough) with stale branches forking exactly at the locator heights and orphans. Per store: LatestHeaderLocator checked (starts at tip, only longest-chain hashes, strictly descending, single steps then doubling, ends at genesis; also after every extension of a growing chain for tips 0..40), and seeded getheaders queries: locators mixing longest/stale/orphan/unknown/genesis hashes in any order or the service's own locator, stops in {zero, ahead, behind, equal to start, genesis, stale/orphan, unknown}; both LocateHeadersGetHeaders and LocateHeaders compared header-by-header with the model answer. plus (d) wire level: the real legacy server, synced from a scripted node, is asked getheaders over TCP by that node (locators of known/unknown hashes, stops ahead / at-or-below start / unknown, chains beyond 2000) and its headers replies are compared with the honest chain. evaluations = getheaders queries; distinct = (locator class set, stop class) cells + locator lengths; non-trivial = all.")
+	r.Rule("stores = seeded random histories (forks, stale branches, orphans, reorganisations) plus long chains (300 / 2100 quick, + 5000 thorough) with stale branches forking exactly at the locator heights and orphans. Random stores are questioned in up to 4 stages while they grow, earlier questions being asked again after later ingestion (incl. reorganisations). Per store: LatestHeaderLocator checked (starts at tip, only longest-chain hashes, strictly descending, single steps then doubling, ends at genesis; also after every extension of a growing chain for tips 0..40), and seeded getheaders queries: locators mixing longest/stale/orphan/unknown/genesis hashes in any order or the service's own locator, stops in {zero, ahead, behind, equal to start, genesis, stale/orphan, unknown}; both LocateHeadersGetHeaders and LocateHeaders compared header-by-header with the model answer. plus (d) wire level: the real legacy server, synced from a scripted node, is asked getheaders over TCP by that node (locators of known/unknown hashes, stops ahead / at-or-below start / unknown, chains beyond 2000) and its headers replies are compared with the honest chain. evaluations = getheaders queries; distinct = (locator class set, stop class) cells + locator lengths; non-trivial = all.")
 	r.Assume("the number of single steps before doubling is not fixed by the statement: any count is accepted, the 10-step reference is only recorded", "reference model transcribes the statement", "SQLite only")
 	r.Require("getheaders_capped_at_2000", 1)
 	r.Require("getheaders_stop_ahead", 50)
 	r.Require("locators_checked", 50)
+	r.Require("stores_questioned_again_after_a_reorganisation", 5)
 	r.Require("wire_getheaders_answered", 50)
 	mb.ForbiddenHeaders()
 	st, err := rig.New(rig.Options{Dir: r.Scratch, NoHTTP: true})
@@ -506,13 +507,32 @@ func body(r *ev.Run) {
 			hist := gen.Random(rng, rig.Genesis(), o)
 			_ = st.Reset()
 			e := &env{r: r, st: st, m: mb.NewModel(), caseID: caseID, desc: map[string]any{"history_hex": hist.Hex()}}
-			if !e.ingest(hist) {
-				return
-			}
-			e.locator()
-			e.emptyLocator()
-			for k := 0; k < 200 && !e.failed; k++ {
-				e.getHeaders(e.genQuery(rng))
+			// the store is questioned while it grows: after each part of the history new questions are asked and earlier
+			// ones are asked again (a stop or locator hash that was on the longest chain may be on a stale branch by now)
+			parts := 1 + rng.Intn(4)
+			var asked []query
+			for p := 0; p < parts && !e.failed; p++ {
+				lo, hi := len(hist.Hdrs)*p/parts, len(hist.Hdrs)*(p+1)/parts
+				best := e.m.Best()
+				if !e.ingest(gen.History{Hdrs: hist.Hdrs[lo:hi]}) {
+					return
+				}
+				if p > 0 && !refmodel.IsAncestor(best, e.m.Best()) {
+					r.Count("stores_questioned_again_after_a_reorganisation", 1)
+				}
+				e.locator()
+				e.emptyLocator()
+				for k := 0; k < 40 && k < len(asked) && !e.failed; k++ {
+					q := asked[rng.Intn(len(asked))]
+					q.locClass, q.stopClass = "asked-before", "asked-before"
+					e.getHeaders(q)
+					r.Count("queries_asked_again_later", 1)
+				}
+				for k := 0; k < 200/parts && !e.failed; k++ {
+					q := e.genQuery(rng)
+					asked = append(asked, q)
+					e.getHeaders(q)
+				}
 			}
 			if r.WantSample() && len(hist.Hdrs) < 15 && !e.failed {
 				q := e.genQuery(rng)
